@@ -255,28 +255,33 @@ def hicWalk : List Seg → Str → Option (Str × Str)
 
 def kF2py : Str := "!f2py".toList
 
+/-- the "quick method" of `handle_inline_comment` (no quote before the first `!`) -/
+def hicQuick (line : Str) (lineno : Nat) (q : Option Char) : Option Hic :=
+  match q, find line '!' with
+  | none, some idx =>
+    let newline := line.take idx
+    if !newline.contains '"' && !newline.contains '\'' then
+      if !startsWith (line.drop idx) kF2py then
+        let isInline := !(lstrip line == line.drop idx)
+        some ⟨newline, q, true, [.comment (line.drop idx) lineno lineno isInline]⟩
+      else none
+    else none
+  | _, _ => none
+
+/-- the `splitquote` path of `handle_inline_comment` -/
+def hicSlow (line : Str) (lineno : Nat) (q : Option Char) : Hic :=
+  let sq := splitquote line q
+  match hicWalk sq.1 [] with
+  | some (nc, comment) => ⟨nc, none, true, [.comment comment lineno lineno false]⟩
+  | none => ⟨(sq.1.map Seg.str).flatten, sq.2, false, []⟩
+
 /-- `handle_inline_comment(line, lineno, quotechar)` with f2py disabled, not f77 -/
 def handleInlineComment (line : Str) (lineno : Nat) (q : Option Char) : Hic :=
   if q.isNone && !line.contains '!' && !line.contains '"' && !line.contains '\'' then ⟨line, q, false, []⟩
   else
-    let quick : Option Hic :=
-      match q, find line '!' with
-      | none, some idx =>
-        let newline := line.take idx
-        if !newline.contains '"' && !newline.contains '\'' then
-          if !startsWith (line.drop idx) kF2py then
-            let isInline := !(lstrip line == line.drop idx)
-            some ⟨newline, q, true, [.comment (line.drop idx) lineno lineno isInline]⟩
-          else none
-        else none
-      | _, _ => none
-    match quick with
+    match hicQuick line lineno q with
     | some r => r
-    | none =>
-      let sq := splitquote line q
-      match hicWalk sq.1 [] with
-      | some (nc, comment) => ⟨nc, none, true, [.comment comment lineno lineno false]⟩
-      | none => ⟨(sq.1.map Seg.str).flatten, sq.2, false, []⟩
+    | none => hicSlow line lineno q
 
 /-! ### get_source_item -/
 
@@ -309,6 +314,36 @@ structure FreeOut where
   endl : Nat
   r : Rd
 
+/-- what one non-skipped physical line contributes to a free-form statement -/
+structure FreeStep where
+  label : Option Nat
+  name : Option Str
+  h : Hic                -- inline-comment handling of the line
+  piece : Str            -- text appended to the statement
+  more : Bool            -- a continuation line follows
+
+/-- the body of the free-form loop for a line that is not skipped. `started` = `bool(lines)` -/
+def freeStep (started : Bool) (line : Str) (lineno : Nat) (q : Option Char) (label : Option Nat)
+    (name : Option Str) : FreeStep :=
+  let lab := if started then (label, line) else extractLabel line
+  let nam := if started then (name, lab.2) else extractName lab.2
+  let h := handleInlineComment nam.2 lineno q
+  let line2 := h.line
+  let i := rfind line2 '&'
+  let noCont : Bool := match i with
+    | none => true
+    | some i => rstrip (line2.drop (i + 1)) != []
+  if !started then
+    ⟨lab.1, nam.1, h, if noCont then line2 else line2.take (i.getD 0), !noCont⟩
+  else
+    let iEnd := if noCont then line2.length else i.getD 0
+    -- `k = line[:i].find("&"); if k != -1 and line[:k].lstrip(): k = -1`
+    let startIdx : Nat :=
+      match find (line2.take iEnd) '&' with
+      | some k => if lstrip (line2.take k) != [] then 0 else k + 1
+      | none => 0
+    ⟨lab.1, nam.1, h, (line2.take iEnd).drop startIdx, !noCont⟩
+
 /-- the `while line is not None` loop of the free-form part. `started` = `bool(lines)` -/
 def freeLoop (hadOmp : Bool) : Nat → Option Str → Bool → Str → Option Char → Option Nat → Option Str →
     Nat → Rd → FreeOut
@@ -325,31 +360,12 @@ def freeLoop (hadOmp : Bool) : Nat → Option Str → Bool → Str → Option Ch
       let g := getSingleLine r
       freeLoop hadOmp fuel g.1 started acc q label name endl g.2
     else
-      let lab := if started then (label, line) else extractLabel line
-      let nam := if started then (name, lab.2) else extractName lab.2
-      let h := handleInlineComment nam.2 r.linecount q
-      let r1 := { r with fifo := r.fifo ++ h.comments }
-      let line2 := h.line
-      let i := rfind line2 '&'
-      let noCont : Bool := match i with
-        | none => true
-        | some i => rstrip (line2.drop (i + 1)) != []
-      if !started then
-        if noCont then ⟨acc ++ line2, lab.1, nam.1, endl, r1⟩
-        else
-          let g := getSingleLine r1
-          freeLoop hadOmp fuel g.1 true (acc ++ line2.take (i.getD 0)) h.q lab.1 nam.1 r1.linecount g.2
-      else
-        let iEnd := if noCont then line2.length else i.getD 0
-        let startIdx : Nat :=
-          match find (line2.take iEnd) '&' with
-          | some k => if lstrip (line2.take k) != [] then 0 else k + 1
-          | none => 0
-        let piece := (line2.take iEnd).drop startIdx
-        if iEnd == line2.length then ⟨acc ++ piece, lab.1, nam.1, r1.linecount, r1⟩
-        else
-          let g := getSingleLine r1
-          freeLoop hadOmp fuel g.1 true (acc ++ piece) h.q lab.1 nam.1 r1.linecount g.2
+      let stp := freeStep started line r.linecount q label name
+      let r1 := { r with fifo := r.fifo ++ stp.h.comments }
+      if stp.more then
+        let g := getSingleLine r1
+        freeLoop hadOmp fuel g.1 true (acc ++ stp.piece) stp.h.q stp.label stp.name r1.linecount g.2
+      else ⟨acc ++ stp.piece, stp.label, stp.name, if started then r1.linecount else endl, r1⟩
 
 /-- everything after the format-specific prologue for a free-form line -/
 def freeItem (r : Rd) (line : Str) (hadOmp : Bool) (s : Nat) : Res Item × Rd :=
